@@ -24,9 +24,10 @@ def _strategy(dll):
     fd = dll == "j1939-22"
     size = st.integers(61, 400) if fd else st.integers(9, 120)
     fate = st.builds(lambda f, k: {"f": f, "k": k}, st.sampled_from(FATES), st.integers(0, 3))
-    send = st.builds(lambda peer, kind, n, ft, gap: {"op": "send", "peer": peer, "kind": kind, "n": n, "fate": ft, "gap": gap},
+    send = st.builds(lambda peer, kind, n, ft, gap, chain: {"op": "send", "peer": peer, "kind": kind, "n": n, "fate": ft, "gap": gap,
+                                                             "chain": chain},
                      st.integers(0, 2), st.sampled_from(["rts", "rts", "rts", "bam"]), size, fate,
-                     st.sampled_from([0.0, 0.0, 0.001, 0.01, 0.1, 0.5, 1.3, 3.2]))
+                     st.sampled_from([0.0, 0.0, 0.001, 0.01, 0.1, 0.5, 1.3, 3.2]), st.sampled_from([False, False, False, False, True]))
     inbound = st.builds(lambda peer, kind, n, sess, stop, gap: {"op": "inbound", "peer": peer, "kind": kind, "n": n,
                                                                  "session": sess, "stop_after": stop, "gap": gap},
                         st.integers(0, 2), st.sampled_from(["rts", "rts", "bam"]), size,
@@ -74,7 +75,8 @@ class C10:
     RULE = ("Hypothesis draws, per data link layer, a history of 1..40 operations: outbound transfer to one of 3 reference peers "
             "or broadcast with a fate (clean / peer never answers / peer aborts at its k-th grant / k-th data packet lost / "
             "final acknowledgement lost), inbound RTS-CTS or BAM session from a peer on any session number 0..15 completed or "
-            "abandoned after 0-2 packets, gaps 0..3.2 s; a send is issued only when the model has a free pair/slot and must "
+            "abandoned after 0-2 packets, gaps 0..3.2 s; one send in five is started from inside a receive callback (e.g. the acknowledge notification of the previous "
+            "transfer); a send is issued only when the model has a free pair/slot and must "
             "then return True; finally one transfer per pair (21) or 8 RTS/CTS + 4 BAM (22) are started in one instant and must "
             "all be accepted and decoded intact by the peers, one more must be refused without a frame; non-trivial = history "
             "with >= 1 failed fate or abandoned inbound session; distinct = distinct histories")
@@ -140,6 +142,9 @@ class C10:
 
             t = 0.05
             counter = [0]
+            last_send = None
+            done_ops = set()
+            chained_n = [0]
 
             def payload(n):
                 counter[0] += 1
@@ -165,6 +170,11 @@ class C10:
                     data = payload(op["n"])
                     if fate["f"] != "clean":
                         failed_fates += 1
+                    # "chain": the application starts this transfer from inside a receive callback (typically the one that reports
+                    # the end-of-message acknowledge of the transfer started just before); if no callback comes it is sent later
+                    # from the application context.  Modelled as in flight from the scheduled instant on (upper bound).
+                    chained = bool(op.get("chain")) and last_send is not None and kind == "rts" and (fd or last_send != da)
+                    last_send = da if kind == "rts" else last_send
 
                     def do(oi=oi, op=op, kind=kind, da=da, data=data, fate=fate):
                         if kind == "rts":
@@ -177,7 +187,20 @@ class C10:
                         if r is not True and kind == "rts" and peers[op["peer"]].fates:
                             peers[op["peer"]].fates.pop()
                         sent.append((oi, op["peer"] if kind == "rts" else None, kind, data, fate, r, w.sim.now))
-                    w.at(t, do)
+                        done_ops.add(oi)
+
+                    if chained:
+                        def arm(oi=oi, do=do):
+                            s.rx_hooks.append(lambda lname: do() if oi not in done_ops else None)
+                            w.sim.schedule(w.sim.now + 1.5, lambda: do() if oi not in done_ops else None)
+                        w.at(t, arm)
+                        chained_n[0] += 1
+                        if fd:
+                            slots[kind][-1] += 1.5 + busy_for(kind, op["n"], fate)
+                        else:
+                            pair_free[da] += 1.5 + busy_for(kind, op["n"], fate)
+                    else:
+                        w.at(t, do)
                 else:
                     if op.get("stop_after") is not None:
                         failed_fates += 1
@@ -281,6 +304,8 @@ class C10:
             labels.append("failed-fate")
         if any(op["op"] == "inbound" for op in p["ops"]):
             labels.append("inbound")
+        if chained_n[0]:
+            labels.append("send-from-rx-callback")
         if any(op["op"] == "inbound" and op.get("stop_after") is not None for op in p["ops"]):
             labels.append("inbound-abandoned")
         fset = sorted({op["fate"]["f"] for op in p["ops"] if op["op"] == "send" and op["kind"] == "rts"})
